@@ -11,7 +11,7 @@ import sys
 from concurrent.futures import ThreadPoolExecutor
 
 VERIF = os.path.dirname(os.path.dirname(os.path.abspath(__file__)))
-WT = "/tmp/wt_seed_recheck"
+WT = "/tmp/wt_seed_recheck" + ("_b" if "--benign" in sys.argv else "")
 
 
 def sh(cmd, **kw):
